@@ -40,7 +40,18 @@ def make_inventory(raws):
         for f in raw["fns"]:
             if f["kind"] == "Closure" or f.get("derived"):
                 continue
-            inv[f["path"]] = {"ret": f.get("ret"), "args": [l["ty"] for l in f["locals"][1:1 + f["argc"]]], "crate": key}
+            inv[f["path"]] = {"ret": f.get("ret"), "args": [l["ty"] for l in f["locals"][1:1 + f["argc"]]], "crate": key, "callers": []}
+    # direct callers (a closure's calls count for the function it is written in): used to hand the reviewed rows of a helper that
+    # was merged into its caller over to that caller
+    for key, raw in raws.items():
+        for f in raw["fns"]:
+            owner = re.sub(r"(::\{closure#\d+\})+$", "", f["path"])
+            for b in f["blocks"]:
+                t = b["term"]
+                if t["k"] == "call":
+                    tgt = t["callee"].get("resolved") or t["callee"].get("path")
+                    if tgt in inv and owner in inv and owner != tgt and owner not in inv[tgt]["callers"]:
+                        inv[tgt]["callers"].append(owner)
     return inv
 
 
@@ -76,8 +87,44 @@ def _remap_term(t, lmap, bmap, pmap):
     return t2
 
 
-def inline_call(caller, bidx, callee):
+_CLONE_SEQ = [0]
+
+
+def _clone_closures(callee, caller, all_fns):
+    """each inlined copy of a helper gets its own copies of the helper's closures (and their nested closures), re-parented to the caller:
+    returns {old closure path: new closure path}"""
+    prefix = callee["path"] + "::{closure#"
+    mapping = {}
+    olds = [f for f in all_fns if f["kind"] == "Closure" and f["path"].startswith(prefix)]
+    if not olds:
+        return mapping
+    _CLONE_SEQ[0] += 1
+    seq = _CLONE_SEQ[0]
+    croot = caller["path"]
+    for f in olds:
+        rest = f["path"][len(callee["path"]):]             # ::{closure#k}[::{closure#j}...]
+        first = re.match(r"^::\{closure#(\d+)\}", rest)
+        newp = croot + "::{closure#%d%02d}" % (100 + seq, int(first.group(1))) + rest[first.end():]
+        mapping[f["path"]] = newp
+    for f in olds:
+        g = json.loads(json.dumps(f))
+        blob = json.dumps(g)
+        for o, n in sorted(mapping.items(), key=lambda kv: -len(kv[0])):
+            blob = blob.replace(json.dumps(o)[1:-1], json.dumps(n)[1:-1])
+        g = json.loads(blob)
+        g["path"] = mapping[f["path"]]
+        if g.get("encl") == callee["path"] or (g.get("encl") or "").startswith(callee["path"]):
+            g["encl"] = caller.get("encl") or caller["path"] if caller["kind"] == "Closure" else caller["path"]
+        if g.get("parent") == callee["path"]:
+            g["parent"] = caller["path"]
+        g["cloned_from"] = "closure of " + callee["path"].rsplit("::", 1)[-1]
+        all_fns.append(g)
+    return mapping
+
+
+def inline_call(caller, bidx, callee, all_fns=None):
     """splice `callee` into `caller` at the call terminating block bidx"""
+    cmap = _clone_closures(callee, caller, all_fns) if all_fns is not None else {}
     blk = caller["blocks"][bidx]
     t = blk["term"]
     loff = len(caller["locals"])
@@ -111,6 +158,11 @@ def inline_call(caller, bidx, callee):
         else:
             nb["term"] = _remap_term(ct, lmap, bmap, pmap)
             # a promoted of the callee is named by the callee's item: keep resolvable through the caller's list
+        if cmap:
+            blob = json.dumps(nb)
+            for o, n in sorted(cmap.items(), key=lambda kv: -len(kv[0])):
+                blob = blob.replace(json.dumps(o)[1:-1], json.dumps(n)[1:-1])
+            nb = json.loads(blob)
         caller["blocks"].append(nb)
     blk["term"] = {"k": "goto", "target": bmap(0), "line": line, "exp": False}
 
@@ -133,7 +185,7 @@ def _fix_promoted_items(caller, callee_path):
 def canonicalise(raws):
     """raws: {crate key: raw facts}.  Returns (raws, report)."""
     inv = load_inventory()
-    report = {"renamed": [], "inlined": [], "new_functions_kept": []}
+    report = {"renamed": [], "inlined": [], "new_functions_kept": [], "gone": {}}
     if inv is None:
         return raws, report
     current = {}
@@ -176,6 +228,11 @@ def canonicalise(raws):
                     if f["path"] == g:
                         f["name"] = g.rsplit("::", 1)[-1].split("<")[0]
         new = [p for p in new if p not in {n for n, g in pairs}]
+    # inventoried functions that are gone and were not renamed: a helper merged into its caller(s); reviewed rows follow it there
+    renamed_to = {g for n, g in pairs}
+    for g in gone:
+        if g not in renamed_to:
+            report["gone"][g] = [c for c in inv[g].get("callers", []) if c in current or c in renamed_to]
     # ---- extraction: inline direct calls to functions that are not in the inventory ----
     if new:
         fn_by_path = {}
@@ -201,7 +258,11 @@ def canonicalise(raws):
                     g = fn_by_path[tgt]
                     if tgt == p or direct_calls_to_new(g):
                         continue  # recursive, or not a leaf yet: its own helpers are inlined first
-                    inline_call(f, i, g)
+                    crate_fns = next(raw["fns"] for raw in raws.values() if any(x is f for x in raw["fns"]))
+                    n_before = len(crate_fns)
+                    inline_call(f, i, g, crate_fns)
+                    for x in crate_fns[n_before:]:
+                        fn_by_path[x["path"]] = x
                     _fix_promoted_items(f, tgt)
                     report["inlined"].append("%s into %s" % (tgt, p))
                     changed = True
@@ -218,17 +279,7 @@ def canonicalise(raws):
                 continue
             for key in list(raws):
                 raw = raws[key]
-                raw["fns"] = [f for f in raw["fns"] if f["path"] != n]
-                if len(callers) == 1:
-                    # the helper's closures now belong to the function the helper was inlined into
-                    for f in raw["fns"]:
-                        if f["kind"] == "Closure" and f.get("encl") == n:
-                            f["encl"] = callers[0]
-                    qc = json.dumps(callers[0])[1:-1]
-                    sdump = json.dumps(raw)
-                    sdump2 = re.sub(re.escape(qn) + r'::\{closure#(\d+)\}', lambda m: qc + "::{closure#1%02d}" % int(m.group(1)), sdump)
-                    if sdump2 != sdump:
-                        raws[key] = json.loads(sdump2)
+                raw["fns"] = [f for f in raw["fns"] if f["path"] != n and not (f["kind"] == "Closure" and f["path"].startswith(n + "::{closure#"))]
     return raws, report
 
 
